@@ -490,6 +490,7 @@ func c10RunProgram(t *testing.T, rec *vlib.Rec, r *rand.Rand, idx int) {
 	if idx%4 == 0 {
 		c10Readback(rec, prog, rp, idx, "after-evaluations")
 	}
+	c10EditPhase(rec, r, idx, prog, rp)
 	if idx%1999 == 0 {
 		rec.Sample(map[string]any{"case": idx, "policies": len(prog.cfg.PolicyDefinitions), "config": prog.cfg, "apply": prog.ap})
 	}
@@ -530,7 +531,7 @@ func c10RunRoute(rec *vlib.Rec, r *rand.Rand, idx, ri int, prog *c10Program, rp 
 	evals := []c10Eval{ev1, ev2}
 	witness := func(k int) map[string]any {
 		return map[string]any{"case": idx, "route_index": ri, "route": c10RouteText(rt), "id": evals[k].id, "direction": evals[k].dirS, "peer": evals[k].info,
-			"config": prog.cfg, "apply": prog.ap}
+			"config": prog.cfg, "apply": prog.ap, "edit_history": prog.history}
 	}
 
 	s0 := c10Snap(stored)
@@ -638,7 +639,7 @@ func c10RunRoute(rec *vlib.Rec, r *rand.Rand, idx, ri int, prog *c10Program, rp 
 			}
 			w := witness(k)
 			w["want_accept"], w["got_accept"], w["decided_by"], w["detail"] = out.Accept, got != nil, out.DecidedBy, detail
-			rec.Violation(key, fmt.Sprintf("verdict: documented model says accept=%v (decided by %s), ApplyPolicy returned accept=%v; %s", out.Accept, out.DecidedBy, got != nil, detail), w)
+			rec.Violation(prog.key(key), fmt.Sprintf("verdict: documented model says accept=%v (decided by %s), ApplyPolicy returned accept=%v; %s", out.Accept, out.DecidedBy, got != nil, detail), w)
 			continue
 		}
 		if got == nil {
@@ -668,7 +669,7 @@ func c10RunRoute(rec *vlib.Rec, r *rand.Rand, idx, ri int, prog *c10Program, rp 
 			}
 			w := witness(k)
 			w["want"], w["got"], w["differing"], w["actions_applied"], w["detail"] = want, have, diff, out.Actions, detail
-			rec.Violation(key, fmt.Sprintf("attributes %v: documented model gives %v, ApplyPolicy gave %v; %s", diff, c10Pluck(want, diff), c10Pluck(have, diff), detail), w)
+			rec.Violation(prog.key(key), fmt.Sprintf("attributes %v: documented model gives %v, ApplyPolicy gave %v; %s", diff, c10Pluck(want, diff), c10Pluck(have, diff), detail), w)
 			continue
 		}
 		if bad := c10WireCheck(got, &gr); len(bad) > 0 {
@@ -1318,11 +1319,11 @@ func c10SortedJoin(xs []string) string {
 
 func c10Readback(rec *vlib.Rec, prog *c10Program, rp *RoutingPolicy, idx int, phase string) {
 	viol := func(key, what string, extra map[string]any) {
-		w := map[string]any{"case": idx, "phase": phase, "config": prog.cfg, "apply": prog.ap}
+		w := map[string]any{"case": idx, "phase": phase, "config": prog.cfg, "apply": prog.ap, "edit_history": prog.history}
 		for k, v := range extra {
 			w[k] = v
 		}
-		rec.Violation(key, what+" ("+phase+")", w)
+		rec.Violation(prog.key(key), what+" ("+phase+")", w)
 	}
 	defer func() {
 		if e := recover(); e != nil {
@@ -1480,6 +1481,9 @@ func c10Readback(rec *vlib.Rec, prog *c10Program, rp *RoutingPolicy, idx int, ph
 			rec.Count("readback_statements", 1)
 		}
 	}
+	for i := range prog.orphans { // statements that exist outside any policy (edit phase)
+		stmtFlat[prog.orphans[i].Name] = c10FlatStatement(&prog.orphans[i], true)
+	}
 	sts := rp.GetStatement("")
 	if len(sts) != len(stmtFlat) {
 		viol("c10:readback:statement:count", fmt.Sprintf("%d statements in policies, GetStatement lists %d", len(stmtFlat), len(sts)), nil)
@@ -1491,7 +1495,7 @@ func c10Readback(rec *vlib.Rec, prog *c10Program, rp *RoutingPolicy, idx int, ph
 			continue
 		}
 		if d := c10FlatDiff(w, c10FlatStatement(s, false)); len(d) > 0 {
-			viol("c10:readback:statement:"+d[0], fmt.Sprintf("GetStatement(%s) differs from GetPolicy on %v", s.Name, d), nil)
+			viol("c10:readback:statement:"+d[0], fmt.Sprintf("GetStatement(%s) differs from the same statement as listed in its policies / as configured on %v", s.Name, d), nil)
 		}
 	}
 	// assignments
@@ -1504,6 +1508,8 @@ func c10Readback(rec *vlib.Rec, prog *c10Program, rp *RoutingPolicy, idx int, ph
 			wantDef := ROUTE_TYPE_ACCEPT
 			if def == "reject-route" {
 				wantDef = ROUTE_TYPE_REJECT
+			} else if def == "none" {
+				wantDef = ROUTE_TYPE_NONE // assignment deleted (edit phase)
 			}
 			rt, ps, err := rp.GetPolicyAssignment(id, dir)
 			var gn []string
